@@ -11,7 +11,7 @@ from . import eqcommon as E
 PROP = "C05"
 RULE = ("list(vf2pp_all_isomorphisms(g1, g2, atom_labels, stereo, stereo_change)) for all ordered pairs of bounded universes "
         "(all labelled MolGraphs n<=3, labelled n=4 x representatives [thorough: all], stereo stars / two-unit graphs with stereo in "
-        "{False, True}, stereo reaction graphs with stereo_change=True, second graph under other identifiers), label modes (incl. caller labels -1 / -2, whose hashes coincide) "
+        "{False, True}, stereo reaction graphs with stereo_change=True, second graph under other identifiers), label modes (incl. caller labels -1 / -2, whose hashes coincide), flags also given as numpy.bool_ / 1 "
         "{default, element dict, all-equal, degree, mismatching}, symmetric graphs up to 14 atoms against themselves and a "
         "relabelled copy; topological_symmetry_number of every fully specified stereo graph.  Oracle: the set of valid bijections "
         "found by brute-force backtracking with the same labels: every yielded mapping valid, none missing, none twice.  "
@@ -84,13 +84,20 @@ def labels_for(mode, a, b):
     raise KeyError(mode)
 
 
-def compare(ra, rb, a, b, mode, stereo, change):
+def compare(ra, rb, a, b, mode, stereo, change, flagtype="bool"):
     """returns (verdict, detail): verdict in ok / invalid / missing / duplicate / exception"""
     from stereomolgraph.algorithms.isomorphism import vf2pp_all_isomorphisms
 
     labels = labels_for(mode, a, b)
+    if flagtype == "numpy":
+        # the flags as a caller may well have them: the result of a numpy comparison / any(), or 1 / 0
+        import numpy as np
+
+        stereo_arg, change_arg = np.bool_(stereo), (1 if change else 0)
+    else:
+        stereo_arg, change_arg = stereo, change
     try:
-        got = list(vf2pp_all_isomorphisms(ra, rb, atom_labels=labels, stereo=stereo, stereo_change=change))
+        got = list(vf2pp_all_isomorphisms(ra, rb, atom_labels=labels, stereo=stereo_arg, stereo_change=change_arg))
     except Exception as e:
         return "exception:" + type(e).__name__, str(e)[:200]
     exp = {frozenset(f.items()) for f in RI.isomorphisms(a, b, roles=False, stereo=stereo, changes=change, labels=labels)}
@@ -128,7 +135,11 @@ def run_item(item):
                 if change and a.kind != SCRG:
                     continue
                 for mode in (modes if same_size else modes[:1]):
-                    v, det = compare(ra, rcols[j], a, b, mode, stereo, change)
+                    # (every third pair with truthy / falsy flags that are not the bool singletons)
+                    ft = "numpy" if (stereo or change) and mode == modes[0] and (i + j) % 3 == 0 else "bool"
+                    v, det = compare(ra, rcols[j], a, b, mode, stereo, change, ft)
+                    if ft == "numpy" and v != "ok":
+                        v = "flags-as-numpy-bool:" + v
                     out["evals"] += 1
                     if same_size:
                         out["distinct"] += 1
